@@ -141,7 +141,13 @@ def _check_server_loop(ctx: Ctx, outer: FunctionInfo, label: str, required: bool
         ctx.check(inside and dom, "RF-DOM", f"{label}:acquire-dominates-serve", h, with_sem[0], ok="serve runs inside `with semaphore:` on every path", bad="serve can run outside the `with semaphore:` block")
         return
     if not acq:
-        if sem in names_in(h.node):
+        known_uses: set[int] = set()
+        for n in ast.walk(h.node):
+            if isinstance(n, ast.Call) and isinstance(n.func, ast.Attribute) and n.func.attr in ("acquire", "release") and isinstance(n.func.value, ast.Name):
+                known_uses.add(id(n.func.value))
+            if isinstance(n, ast.Compare) and isinstance(n.left, ast.Name) and len(n.ops) == 1 and isinstance(n.ops[0], (ast.Is, ast.IsNot)):
+                known_uses.add(id(n.left))
+        if any(isinstance(n, ast.Name) and n.id == sem and id(n) not in known_uses for n in ast.walk(h.node)):
             raise AnalysisError(f"C41: {h.fq} uses `{sem}` in a way outside the interpreted idioms (acquire()/release() or `with {sem}:`): cannot decide")
         ctx.fail("RF-DOM", f"{label}:acquire-dominates-serve", h, serve_call, "the handler never touches the semaphore: connections beyond max_connections are served at once")
         return
@@ -249,7 +255,7 @@ def _check_entrypoints(ctx: Ctx) -> None:
 
 def _check_server_object(ctx: Ctx) -> None:
     serve = ctx.fn(SERVE)
-    scfg = cfg_of(serve.node)
+    cfg_of(serve.node)
     # fresh per-connection shm cache
     so = [c for c in calls(serve) if last_attr(c) == "serve_one"]
     if not so:
